@@ -262,7 +262,7 @@ def execute(text, cov=None, isolate=True):
         for i, want in enumerate(wants):
             if result is not None and i >= result[3]:
                 break
-            if i < len(pristine) and pristine[i] != want:
+            if i < len(pristine) and pristine[i] is not None and pristine[i] != want:   # None: the child gave no answer (died)
                 return (True, 'c08-py-fresh-drift',
                         'a fresh ZoneSpecifier(%s) in this process answers %s to %s; a fresh one in a process where nothing '
                         'has run before answers %s: state shared between instances'
